@@ -22,7 +22,7 @@ RULE = ('fault plan = for every worker but one (the usable one), per remote meth
         'to the fault-free in-process result; application errors surface as errors; exhausted budget => TimeoutError; afterwards '
         'no worker is acquired; a 120 s watchdog catches hangs; non-trivial = a fault hit an issued call and the run still had to '
         'complete; distinct = distinct canonical case JSON'
-        '; also: fault action presumed_dead (reply parked, worker unregistered, reply delivered after a generated delay or at the moment the caller gives the worker up), every worker timing out 29..50 times on initialisation')
+        '; also: tasks handed over as Task objects (also blocking ones), an explicit retry budget that is used up but not exceeded (within_budget), fault action presumed_dead (reply parked, worker unregistered, reply delivered after a generated delay or at the moment the caller gives the worker up), every worker timing out 29..50 times on initialisation')
 ASSUMPTIONS = [
     'in-process fake transport: an unreachable or dead server fails a call immediately with deadline exceeded (code 4)',
     'one worker carries no faults (the property\'s "one worker stays usable"); plans that must complete use the default '
@@ -117,6 +117,10 @@ def run_tasks(case):
   install_plan(cl, case['plan'], 1000.0 if at_give_up else case.get('answer_after', 0.05))
   tasks = [lf.trace(targets.raise_value_error)(f'task {t[1]}') if t[0] == 'fail' else lf.trace(targets.counted_add)(t[1], 1000)
            for t in case['tasks']]
+  form = case.get('task_form', 'lazy')       # tasks handed over as lazy calls, as Task objects, or as blocking Task objects
+  if form != 'lazy':
+    from ml_metrics._src.utils import courier_utils  # pylint: disable=g-import-not-at-top
+    tasks = [courier_utils.Task.new(t, blocking=form == 'blocking') for t in tasks]
   out = []
 
   def body():
@@ -169,8 +173,12 @@ def strat_tasks(tier):
     workers = draw(st.sampled_from([1, 2, 2, 3]))
     tasks = draw(st.lists(st.tuples(st.sampled_from(['ok', 'ok', 'ok', 'ok', 'ok', 'ok', 'ok', 'fail']), st.integers(0, 7)).map(list),
                           min_size=1, max_size=8, unique_by=lambda t: t[1]))
-    return {'workers': workers, 'tasks': tasks, 'plan': _plan(draw, workers, ['maybe_make'], 5), 'rseed': draw(st.integers(0, 10**6)),
+    case = {'workers': workers, 'tasks': tasks, 'plan': _plan(draw, workers, ['maybe_make'], 5), 'rseed': draw(st.integers(0, 10**6)),
             'answer_after': draw(st.sampled_from([0.005, 0.02, 0.05])), 'answer_at': draw(st.sampled_from(['later', 'later', 'give_up']))}
+    case['task_form'] = draw(st.sampled_from(['lazy', 'lazy', 'task', 'blocking']))
+    if case['task_form'] == 'blocking':
+      case['answer_at'] = 'later'      # a blocking submission waits for the answer itself: nobody polls the worker meanwhile
+    return case
   return s()
 
 
@@ -208,7 +216,7 @@ def run_sharded(case):
     cl.done = True
     cl.stop()
   check(status != 'hang', 'hang', f'{what}: sharded run still going after 120 s')
-  budget = case.get('retry_threshold')
+  budget = case.get('retry_threshold') if not case.get('within_budget') else None
   if poison:
     check(status == 'error', 'application-error-swallowed', f'{what}: the pipeline raises on a worker but the run finished; results={results!r}')
     return {'nontrivial': True, 'classes': ['sharded', 'app-error']}
@@ -240,7 +248,7 @@ def strat_sharded(tier):
     workers = draw(st.sampled_from([1, 2, 2, 3]))
     nb = draw(st.integers(0, 10))
     data = [{'a': [draw(st.integers(0, 9)) for _ in range(draw(st.integers(1, 3)))]} for _ in range(nb)]
-    mode = draw(st.sampled_from(['faults', 'faults', 'faults', 'faults', 'app_error', 'budget', 'many_timeouts']))
+    mode = draw(st.sampled_from(['faults', 'faults', 'faults', 'faults', 'app_error', 'budget', 'many_timeouts', 'within_budget']))
     shape = {'filter': draw(st.booleans()), 'second_agg': draw(st.booleans()), 'chain2': draw(st.sampled_from([False, False, True]))}
     case = {'data': data, 'shape': shape, 'workers': workers, 'shards': draw(st.sampled_from([1, 2, 3, 4, 6])),
             'iterate_batch_size': draw(st.sampled_from([1, 2, 3])), 'prefetch_size': draw(st.integers(1, 3)),
@@ -255,6 +263,13 @@ def strat_sharded(tier):
       case['workers'] = max(workers, 2)
       per = draw(st.sampled_from([29, 30, 31, 35, 50]))      # every worker: 2 x 30 = 60 timeouts in total, or a few more or less
       case['plan'] = {str(w): {'init_generator': ['deadline_before'] * per} for w in range(case['workers'])}
+    elif mode == 'within_budget':
+      # an explicit small retry budget and at most that many timeouts in the whole run (exactly that many when every planned
+      # fault is hit): the budget is used up but not exceeded, the run completes
+      n = draw(st.integers(1, 3))
+      case['retry_threshold'], case['within_budget'] = n, True
+      owners = [draw(st.integers(0, workers - 1)) for _ in range(n)]
+      case['plan'] = {str(w): {'init_generator': ['deadline_before'] * owners.count(w)} for w in set(owners)}
     elif mode == 'budget':
       # every worker times out on its first calls and the budget is tiny
       case['plan'] = {str(w): {'init_generator': ['deadline_before'] * 6} for w in range(workers)}
